@@ -195,6 +195,14 @@ pub fn run(seed: u64, count: u64, out: &mut dyn Write, stats: &mut Stats) {
             let res = runner.step(&tx, out, stats);
             g.feedback(&tx, &res);
         }
+        // instantiate probes (own PRNG, so that the histories' streams are as they were): the engine's `instantiate`
+        // with boundary-biased parameters on this chain, after the history's last transaction
+        let mut pr = Rng::new(seed.wrapping_mul(0x9E37_79B9).wrapping_add(h) ^ 0x1257_AB1E);
+        for j in 0..3 {
+            let line = runner.world.probe_engine_instantiate(&mut pr, h, j);
+            stats.count("einst", if line.contains(" ok=1 ") { "accepted" } else { "rejected" });
+            writeln!(out, "{}", line).unwrap();
+        }
     }
 }
 
